@@ -2,6 +2,7 @@
 package main
 
 import (
+	"verif/mc/dirmodel"
 	"crypto/sha256"
 	"encoding/hex"
 	"fmt"
@@ -201,11 +202,23 @@ func eval(c Case, sandbox string) hx.Result {
 			if err := cache.RemoveSpec("warmup"); err != nil {
 				return fail("reconf:warm-up-remove-fails", err.Error(), nil, nil)
 			}
-			if err := cache.Configure(cdi.WithSpecDirs(dirs...)); err != nil {
+			opt, reuse := dirmodel.Dirs(dirs...)
+			if err := cache.Configure(opt); err != nil {
 				return fail("reconf:configure-fails", err.Error(), nil, nil)
 			}
+			reuse()
 		} else {
-			cache, _ = cdi.NewCache(cdi.WithSpecDirs(dirs...), cdi.WithAutoRefresh(false))
+			opt, reuse := dirmodel.Dirs(dirs...)
+			cache, _ = cdi.NewCache(opt, cdi.WithAutoRefresh(false))
+			reuse()
+		}
+		// the caller owns the slices it passes and gets: the one given to WithSpecDirs has been reused for
+		// something else by now, and the one GetSpecDirectories returns is reversed and overwritten
+		if got := cache.GetSpecDirectories(); len(got) > 0 {
+			for i, j := 0, len(got)-1; i < j; i, j = i+1, j-1 {
+				got[i], got[j] = got[j], got[i]
+			}
+			got[len(got)-1] = filepath.Join(base, "written-into-the-callers-copy")
 		}
 		before := snapshot(sandbox)
 		werr := cache.WriteSpec(raw, name)
